@@ -299,3 +299,54 @@ Example C20_nonvacuous_residual_floor :
   residual_ok_floor L r noise (qq 1 100000000) (residual_floor A y) = true /\
   residual_ok_floor L r [qq 1 1000] (qq 1 100000000) (residual_floor A y) = false.
 Proof. cbv zeta. split; [apply Qc_is_canon; vm_compute; reflexivity | repeat split; vm_compute; reflexivity]. Qed.
+
+(* ======================================================================================================================
+   Positive semi-definiteness in EVERY dimension (proofs: Proofs/RegressKron.v on top of Proofs/KronSOS.v / StripeSOS.v,
+   weighted sum-of-squares representations and their tensor products; contributed by the C16 builder).  With it the
+   minimiser theorem for the smoothing matrix is unconditional in every dimension. *)
+From SG Require Import Proofs.DECacheP Proofs.RegressKron.
+
+Theorem C20_C_positive_semidefinite_nd : forall stripes, Forall good_stripe stripes ->
+  psd (length (grid_hats stripes)) (C_matrix_dw_spec stripes).
+Proof. exact C_matrix_dw_spec_psd. Qed.
+Theorem C20_C_uniform_positive_semidefinite_nd : forall lv, Forall (fun l => (1 <= l)%Z) lv ->
+  psd (length (index_list lv)) (C_matrix_uniform false lv).
+Proof. exact C_matrix_uniform_psd. Qed.
+Print Assumptions C20_C_positive_semidefinite_nd.
+Print Assumptions C20_C_uniform_positive_semidefinite_nd.
+
+(* the surpluses of a component grid that satisfy the model's normal equations with the gradient Gram matrix minimise the
+   regularised least-squares functional: uniform grids (build_C_matrix as repaired) and dimension-wise grids, any dimension *)
+Theorem C20_smooth_normal_equations_minimise_uniform : forall lv A y lam alpha beta,
+  Forall (fun l => (1 <= l)%Z) lv ->
+  let n := length (index_list lv) in let C := C_matrix_uniform false lv in
+  wf_matrix n A -> A <> [] -> length y = length A -> length alpha = n -> length beta = n -> 0 <= lam ->
+  matvec (left_matrix A lam true C) alpha = right_vector A y ->
+  J A y lam C alpha <= J A y lam C beta.
+Proof.
+  intros lv A y lam alpha beta Hl n C Hwf Hne Hy Ha Hb Hlam NE.
+  apply (smooth_normal_equations_minimise (C_val false lv) (index_list lv) A y lam alpha beta); try assumption.
+  exact (C_matrix_uniform_psd lv Hl).
+Qed.
+Theorem C20_smooth_normal_equations_minimise_dimension_wise : forall stripes A y lam alpha beta,
+  Forall good_stripe stripes ->
+  let n := length (grid_hats stripes) in let C := C_matrix_dw_spec stripes in
+  wf_matrix n A -> A <> [] -> length y = length A -> length alpha = n -> length beta = n -> 0 <= lam ->
+  matvec (left_matrix A lam true C) alpha = right_vector A y ->
+  J A y lam C alpha <= J A y lam C beta.
+Proof.
+  intros stripes A y lam alpha beta Hs n C Hwf Hne Hy Ha Hb Hlam NE.
+  apply (smooth_normal_equations_minimise C_val_dw_spec (grid_hats stripes) A y lam alpha beta); try assumption.
+  exact (C_matrix_dw_spec_psd stripes Hs).
+Qed.
+Print Assumptions C20_smooth_normal_equations_minimise_uniform.
+Print Assumptions C20_smooth_normal_equations_minimise_dimension_wise.
+
+Example C20_nonvacuous_psd_nd :
+  let st := [[qq 0 1; qq 1 4; qq 1 2; qq 1 1]; [qq 0 1; qq 1 2; qq 3 4; qq 1 1]] in
+  Forall good_stripe st /\ length (grid_hats st) = 4%nat /\ Forall (fun l => (1 <= l)%Z) [2; 1; 2]%Z /\
+  length (index_list [2; 1; 2]%Z) = 9%nat.
+Proof.
+  cbv zeta. split; [|split; [reflexivity | split; [repeat constructor; lia | reflexivity]]].
+  repeat constructor; try (unfold Qclt; vm_compute; reflexivity); try (apply Qc_is_canon; reflexivity).
+Qed.
